@@ -82,3 +82,60 @@ Proof.
   induction a as [|x a IH]; destruct b as [|y b]; simpl; auto.
   rewrite (N.compare_antisym x y). destruct (N.compare x y); simpl; auto.
 Qed.
+
+(* ---- float_same is "equal, with all NaNs identified" ------------------------------------------ *)
+Lemma SFcompare_eq_same x y :
+  SFcompare x y = Some Eq ->
+  match x, y with
+  | S754_zero _, S754_zero _ => True
+  | _, _ => x = y
+  end.
+Proof.
+  destruct x as [sx|sx| |sx mx ex], y as [sy|sy| |sy my ey]; simpl; intros H; try exact I; try discriminate;
+    try (destruct sx; discriminate); try (destruct sy; discriminate).
+  - destruct sx, sy; try discriminate; reflexivity.
+  - destruct sx, sy; try discriminate.
+    + destruct (Z.compare_spec ex ey) as [E|L|G]; try discriminate. subst.
+      change (Pos.compare_cont Eq mx my) with (Pos.compare mx my) in H.
+      destruct (Pos.compare_spec mx my) as [E|L|G]; try discriminate. subst. reflexivity.
+    + destruct (Z.compare_spec ex ey) as [E|L|G]; try discriminate. subst.
+      change (Pos.compare_cont Eq mx my) with (Pos.compare mx my) in H.
+      destruct (Pos.compare_spec mx my) as [E|L|G]; try discriminate. subst. reflexivity.
+Qed.
+
+Lemma float_same_spec a b :
+  float_same a b = true <-> (is_nan a = true /\ is_nan b = true) \/ (is_nan a = false /\ a = b).
+Proof.
+  unfold float_same. split.
+  - destruct (is_nan a) eqn:Na; [intros H; left; auto|].
+    destruct (is_nan b) eqn:Nb; [discriminate|].
+    intros H. apply andb_true_iff in H. destruct H as [He Hs]. right. split; [reflexivity|].
+    rewrite eqb_fcmp in He. unfold fcmp in He. unfold f_signbit in Hs.
+    apply Prim2SF_inj.
+    destruct (SFcompare (Prim2SF a) (Prim2SF b)) as [[| |]|] eqn:C; try discriminate.
+    pose proof (SFcompare_eq_same _ _ C) as S.
+    destruct (Prim2SF a) as [sa|sa| |sa ma ea], (Prim2SF b) as [sb|sb| |sb mb eb]; try exact S.
+    destruct sa, sb; try discriminate; reflexivity.
+  - intros [[Na Nb]|[Na E]].
+    + rewrite Na. exact Nb.
+    + subst b. rewrite Na. apply andb_true_iff. split.
+      * unfold is_nan in Na. apply negb_false_iff in Na. exact Na.
+      * destruct (f_signbit a); reflexivity.
+Qed.
+
+Lemma float_same_refl a : float_same a a = true.
+Proof. apply float_same_spec. destruct (is_nan a) eqn:N; [left; auto | right; auto]. Qed.
+Lemma float_same_sym a b : float_same a b = float_same b a.
+Proof.
+  destruct (float_same a b) eqn:E1, (float_same b a) eqn:E2; try reflexivity.
+  - apply float_same_spec in E1. assert (float_same b a = true); [|congruence].
+    apply float_same_spec. destruct E1 as [[H1 H2]|[H1 H2]]; [left; auto | subst; right; auto].
+  - apply float_same_spec in E2. assert (float_same a b = true); [|congruence].
+    apply float_same_spec. destruct E2 as [[H1 H2]|[H1 H2]]; [left; auto | subst; right; auto].
+Qed.
+Lemma float_same_trans a b c : float_same a b = true -> float_same b c = true -> float_same a c = true.
+Proof.
+  intros H1 H2. apply float_same_spec in H1. apply float_same_spec in H2. apply float_same_spec.
+  destruct H1 as [[A B]|[A ->]], H2 as [[C D]|[C E]]; try (left; split; assumption); try congruence;
+    try (right; split; assumption).
+Qed.
